@@ -614,10 +614,68 @@ fn rabin_hex(fp: &Fingerprint) -> String {
     }
 }
 
+/// Avro JSON schema → schema tree (names, docs and logical types ignored)
+fn s_of_json(j: &serde_json::Value) -> Option<S> {
+    use serde_json::Value as J;
+    Some(match j {
+        J::String(t) => match t.as_str() {
+            "null" => S::Null,
+            "boolean" => S::Bool,
+            "int" => S::Int,
+            "long" => S::Long,
+            "float" => S::Float,
+            "double" => S::Double,
+            "bytes" => S::Bytes,
+            "string" => S::Str,
+            _ => return None,
+        },
+        J::Array(b) => {
+            let bs: Vec<S> = b.iter().map(s_of_json).collect::<Option<_>>()?;
+            if bs.len() == 2 && bs[0] == S::Null {
+                S::Opt(true, Box::new(bs[1].clone()))
+            } else if bs.len() == 2 && bs[1] == S::Null {
+                S::Opt(false, Box::new(bs[0].clone()))
+            } else {
+                S::Union(bs)
+            }
+        }
+        J::Object(o) => match o.get("type")? {
+            J::String(t) => match t.as_str() {
+                "record" => S::Rec(o.get("fields")?.as_array()?.iter().map(|f| s_of_json(f.get("type")?)).collect::<Option<_>>()?),
+                "array" => S::Arr(Box::new(s_of_json(o.get("items")?)?)),
+                "map" => S::Map(Box::new(s_of_json(o.get("values")?)?)),
+                "fixed" => S::Fixed(o.get("size")?.as_u64()? as usize),
+                "enum" => S::Enum(o.get("symbols")?.as_array()?.len()),
+                _ => s_of_json(o.get("type")?)?,
+            },
+            other => s_of_json(other)?,
+        },
+        _ => return None,
+    })
+}
+/// the `avro.schema` entry of an OCF header as written by `AvroOcfFormat::start_stream`
+fn ocf_header_schema(bytes: &[u8]) -> Option<String> {
+    let mut i = 4;
+    let n = read_varlong(bytes, &mut i)?;
+    for _ in 0..n {
+        let kl = read_varlong(bytes, &mut i)? as usize;
+        let k = bytes.get(i..i + kl)?.to_vec();
+        i += kl;
+        let vl = read_varlong(bytes, &mut i)? as usize;
+        let v = bytes.get(i..i + vl)?.to_vec();
+        i += vl;
+        if k == b"avro.schema" {
+            return String::from_utf8(v).ok();
+        }
+    }
+    None
+}
+
 fn run_case(line: &str, sink: &mut Sink, tags: &str) -> String {
     let t: Vec<&str> = line.split(' ').collect();
     assert_eq!(t[0], "C17");
     let mut oracle: Vec<String> = vec![];
+    let mut finding = "";
     let ans = guarded(|| match t[1] {
         "avro" => {
             let top = top_of(&parse_s(t[2]));
@@ -691,7 +749,16 @@ fn run_case(line: &str, sink: &mut Sink, tags: &str) -> String {
             }
             // read back
             let all_rows: Vec<Vec<V>> = batches_rows.iter().flatten().cloned().collect();
-            match ReaderBuilder::new().with_batch_size(7).build(std::io::Cursor::new(bytes.clone())) {
+            // the header must advertise the schema the body was encoded with; if it does not, reading
+            // decodes the body under another schema (garbage, an error, or a non-terminating
+            // `Reader::read` when a block is left with trailing bytes) — report and skip the read
+            let header_s = ocf_header_schema(&bytes).and_then(|j| serde_json::from_str::<serde_json::Value>(&j).ok()).and_then(|j| s_of_json(&j));
+            let header_ok = header_s == Some(S::Rec(top.clone()));
+            if !header_ok {
+                finding = " finding:ocf-header-schema";
+                oracle.push(format!("ocf header schema {} differs from the writer schema the body is encoded with", header_s.as_ref().map(show_s).unwrap_or("?".into())));
+            }
+            if header_ok { match ReaderBuilder::new().with_batch_size(7).build(std::io::Cursor::new(bytes.clone())) {
                 Ok(r) => {
                     let mut bs = vec![];
                     let mut failed = false;
@@ -714,7 +781,7 @@ fn run_case(line: &str, sink: &mut Sink, tags: &str) -> String {
                     }
                 }
                 Err(e) => oracle.push(format!("ocf round trip: open {}", err_class(e))),
-            }
+            } }
             if t[1] == "ocfz" {
                 return format!("rows={}", all_rows.len());
             }
@@ -773,7 +840,7 @@ fn run_case(line: &str, sink: &mut Sink, tags: &str) -> String {
         _ => "bad-op".into(),
     });
     for o in oracle {
-        sink.oracle_failure(line.to_string(), o, tags);
+        sink.oracle_failure(line.to_string(), o, &format!("{}{}", tags, finding));
     }
     ans
 }
@@ -995,6 +1062,7 @@ fn main() {
         let n = n_cases(&args, 1500, 40000);
         for _ in 0..n {
             let (line, tags) = gen_case(&mut rng);
+            if std::env::var("VERIF_TRACE").is_ok() { eprintln!("{}", line); }
             let a = run_case(&line, &mut sink, &tags);
             sink.case(line, a, &tags);
         }
